@@ -261,60 +261,76 @@ var c06Stuck = map[*vCore]map[string]bool{}
 var c06SettleSoft, c06SettleHard int
 
 func c06Settle(v *vCore) (*c06State, int, string) {
-	soft := 0
-	for i := 0; i < 600; i++ {
+	// Every reason to wait has its own bound. A reason that outlives its bound is remembered per
+	// core (c06Stuck) and never waited for again, so one state that does not settle costs one
+	// bounded wait, not one per later case.
+	const (
+		boundMoving  = 200 // backend events arriving during the scan
+		boundQueued  = 200 // a stored lease whose expiry is not in the future (being revoked by the workers)
+		boundInFlite = 40  // an index entry without record whose lease id is still tracked (revocation between its two deletes)
+		boundPending = 30  // a token entry marked revocation-pending
+	)
+	if c06Stuck[v] == nil {
+		c06Stuck[v] = map[string]bool{}
+	}
+	stuck := c06Stuck[v]
+	waited := map[string]int{}
+	gaveUpQueued := ""
+	for i := 0; i < 1000; i++ {
 		n1 := v.Rec.Len()
 		s, err := c06Scan(v)
 		if err != nil {
 			return nil, 0, "storage scan failed: " + err.Error()
 		}
-		hard := v.Rec.Len() != n1
+		active := map[string]int{} // reason -> bound
+		if v.Rec.Len() != n1 && !stuck["moving"] {
+			active["moving"] = boundMoving
+		}
 		now := time.Now()
-		for _, l := range s.Leases {
-			if !l.ExpireTime.IsZero() && !l.ExpireTime.After(now) {
-				hard = true
-			}
-		}
-		// a revocation deletes the lease record, then the index entry, then forgets the lease: an index
-		// entry without record whose lease id is still tracked is a revocation in flight
 		have := map[string]bool{}
-		for _, l := range s.Leases {
+		for k, l := range s.Leases {
 			have[l.LeaseID] = true
-		}
-		for _, lid := range s.Index {
-			if !have[lid] && c06Tracked(v, lid) {
-				hard = true
+			if !l.ExpireTime.IsZero() && !l.ExpireTime.After(now) && !stuck["queued:"+k] {
+				active["queued:"+k] = boundQueued
 			}
 		}
-		pendingTok := false
+		for k, lid := range s.Index {
+			if !have[lid] && c06Tracked(v, lid) && !stuck["inflight:"+k] {
+				active["inflight:"+k] = boundInFlite
+			}
+		}
 		for k, te := range s.Tokens {
-			if te.NumUses < 0 && !c06Stuck[v][k] {
-				pendingTok = true
+			if te.NumUses < 0 && !stuck["pending:"+k] && !stuck[k] {
+				active["pending:"+k] = boundPending
 			}
 		}
-		if !hard && (!pendingTok || soft >= 30) {
-			if pendingTok {
-				// a revocation-pending marker nobody is working on (its revocation failed): stop waiting for it
-				if c06Stuck[v] == nil {
-					c06Stuck[v] = map[string]bool{}
-				}
-				for k, te := range s.Tokens {
-					if te.NumUses < 0 {
-						c06Stuck[v][k] = true
-					}
-				}
+		if len(active) == 0 {
+			if gaveUpQueued != "" {
+				return nil, 0, "a lease stayed queued for revocation beyond the wait bound: " + gaveUpQueued
 			}
 			return s, n1, ""
 		}
-		if !hard {
-			soft++
-			c06SettleSoft++
-		} else {
+		hard := false
+		for reason, bound := range active {
+			waited[reason]++
+			if !strings.HasPrefix(reason, "pending:") {
+				hard = true
+			}
+			if waited[reason] > bound {
+				stuck[reason] = true
+				if strings.HasPrefix(reason, "queued:") {
+					gaveUpQueued = c06KeyClass(strings.TrimPrefix(reason, "queued:"))
+				}
+			}
+		}
+		if hard {
 			c06SettleHard++
+		} else {
+			c06SettleSoft++
 		}
 		time.Sleep(25 * time.Millisecond)
 	}
-	return nil, 0, "storage did not settle within the wait bound (a lease stayed queued for revocation)"
+	return nil, 0, "storage did not settle within the wait bound"
 }
 
 func c06Tracked(v *vCore, leaseID string) bool {
@@ -752,10 +768,34 @@ type c06Verdict struct {
 func c06Judge(r *kit.Result, c *c06Case, caseID string, resp *logical.Response, err error, fault string) c06Verdict {
 	v, vr := c.v, c.vr
 	var vd c06Verdict
+	// Decided from storage at the moment the response is in the client's hands, before any wait:
+	// what the client holds must have its lease record in the store (tracking it in memory only
+	// is not a durable lease).
+	type c06Early struct{ class, what string }
+	var early []c06Early
+	if p0 := c06Delivered(resp, err); p0.How == "secret" || (p0.How == "token" && !p0.Batch) {
+		if sn, e0 := c06Scan(v); e0 == nil {
+			switch p0.How {
+			case "secret":
+				if l := sn.leaseByID(p0.LeaseID); l == nil || l.Auth != nil || l.secretID() != p0.SecretID {
+					early = append(early, c06Early{"C06-delivered-secret-lease-not-durable", fmt.Sprintf("the client received secret %s with lease id %q and the store holds no lease record for it when the response is returned (tracked in memory: %v)", p0.SecretID, p0.LeaseID, c06Tracked(v, p0.LeaseID))})
+				}
+			case "token":
+				if te := sn.tokenByAccessor(p0.Accessor); te == nil || sn.leaseForToken(te.ID) == nil {
+					early = append(early, c06Early{"C06-delivered-token-lease-not-durable", "the client received a service token and the store holds no lease record for it when the response is returned"})
+				}
+			}
+			r.Count("delivery_durability_checked_before_wait", 1)
+		}
+	}
 	// Revocations that the request queued (final-use token) finish asynchronously; judge a
-	// snapshot in which nothing is moving.
+	// snapshot in which nothing is moving. Not settling is inconclusive for this case only.
 	s1, nev, why := c06Settle(v)
 	if s1 == nil {
+		for _, e := range early {
+			c.bad++
+			r.Violate(e.class, caseID, fmt.Sprintf("[%s] %s, fault: %s, response: %s: %s", caseID, vr.Name, fault, vErrStr(resp, err), e.what), map[string]any{"variant": vr.Name, "transactional": c.tx, "fault": fault, "request_ops": c06OpsStr(c.ops)})
+		}
 		r.Inconc("%s: %s", caseID, why)
 		return vd
 	}
@@ -776,6 +816,10 @@ func c06Judge(r *kit.Result, c *c06Case, caseID string, resp *logical.Response, 
 	viol := func(class, what string) {
 		c.bad++
 		r.Violate(class, caseID, fmt.Sprintf("[%s] %s, fault: %s, response: %s: %s", caseID, vr.Name, fault, vErrStr(resp, err), what), wit)
+	}
+
+	for _, e := range early {
+		viol(e.class, e.what)
 	}
 
 	// ---- what does the client hold?
